@@ -83,6 +83,10 @@ inductive Job where
   /-- a read loop through `AsyncRead::poll_read` -/
   | read (op : String) (sid : Nat) (cyc : List Nat) (pos : Nat) (calls : Option Nat)
       (acc : List Nat) (counts : List Nat)
+  /-- a FILL-mode read loop (`rff` / `rtf`): every caller buffer of the cycle is filled to its end by as many
+      `poll_read` calls as that takes, each asking for what is left of it (`room`; 0 = take the next buffer) -/
+  | readFill (op : String) (sid : Nat) (cyc : List Nat) (idx room : Nat) (calls : Option Nat)
+      (acc : List Nat) (counts : List Nat)
   /-- `poll_data` until the end -/
   | readAll (sid : Nat) (acc : List Nat)
   | dgr
@@ -98,6 +102,7 @@ def Job.op : Job → String
   | .wbuf op .. => op
   | .slice op .. => op
   | .read op .. => op
+  | .readFill op .. => op
   | .readAll .. => "ra"
   | .dgr => "dgr"
   | .forever op => op
@@ -291,6 +296,32 @@ def abHold (st : St) (task : String) (b : Nat) : St :=
     -- requests and malformed frames that come in through `accept_bi` are C03's / C02's subject
     | _ => st
 
+/-- A closed connection (`C<code>` / `T`) reaches a stream read as the transport's error answer once h3's own
+    buffer is empty (what the transport still had queued is lost): the script is replaced by the sticky
+    error event `reset CONN`, rendered `err:conn` (`CONN` = 2^62 is no QUIC error code).  Added for C06. -/
+def CONN : Nat := 2^62
+
+def evsOf (st : St) (p : Peer) : List Ev := if st.connErr.isSome then [.reset CONN] else p.evs
+
+def errText (c : Nat) : String := if c == CONN then "err:conn" else s!"err:rterm:{c}"
+
+/-- the calls of a FILL-mode read loop: each asks `Session.pollRead` (through `readLim` with a single size)
+    for what is left of the current caller buffer; a full buffer is followed by the next size of the cycle.
+    Answer: the pieces of the completed calls, how the loop ended, and where it stands. -/
+def fillLoop : Nat → List Nat → Nat → Nat → Option Nat → Rd → List Ev → List (List Nat) →
+    List (List Nat) × RdEnd × Rd × List Ev × Nat × Nat × Option Nat
+  | 0, _, idx, room, calls, s, sc, ps => (ps, .open_, s, sc, idx, room, calls)
+  | fuel + 1, cyc, idx, room, calls, s, sc, ps =>
+    if calls == some 0 then (ps, .more, s, sc, idx, room, calls)
+    else
+      let idx1 := if room = 0 then idx + 1 else idx
+      let room1 := if room = 0 then max 1 (cyc.getD (idx % cyc.length) 4096) else room
+      let r := readLim [room1] s sc
+      match r.fin, r.pieces with
+      | .more, [d] => fillLoop fuel cyc idx1 (room1 - d.length) (calls.map (· - 1)) r.s r.script (ps ++ [d])
+      | .more, _ => (ps, .open_, r.s, r.script, idx1, room1, calls)
+      | e, _ => (ps, e, r.s, r.script, idx1, room1, calls)
+
 /-- let a job make progress: it completes (one trace entry) or blocks its task again -/
 def runJob (st : St) (task : String) (job : Job) : St :=
   match job with
@@ -371,11 +402,12 @@ def runJob (st : St) (task : String) (job : Job) : St :=
       match p.rd with
       | none => st
       | some rd =>
-        let avail := rd.buf.flatten.length + (bytesBefore p.evs).length
+        let evs := evsOf st p
+        let avail := rd.buf.flatten.length + (bytesBefore evs).length
         let n := match calls with
           | none => avail + 2
           | some m => min m (avail + 2)
-        let r := readLim (expand cyc pos n) rd p.evs
+        let r := readLim (expand cyc pos n) rd evs
         let acc := acc ++ r.pieces.flatten
         let counts := counts ++ r.pieces.map List.length
         let st := updPeer st sid (fun p => { p with rd := some r.s, evs := r.script })
@@ -385,13 +417,40 @@ def runJob (st : St) (task : String) (job : Job) : St :=
           let send := if more then "more" else endText p.ended
           (updPeer st sid (fun p => { p with taken := p.taken + sdata.length })).log
             s!"{task}.{op}=data:{toHex acc}:n={joinNat counts}:{endM}"
-            s!"{task}.{op}=data:{toHex sdata}:n=*:{send}"
+            (if endM == "err:conn" then s!"{task}.{op}=data:*:n=*:err:conn"
+             else s!"{task}.{op}=data:{toHex sdata}:n=*:{send}")
         match r.fin with
         | .eof => finish st "end" false
-        | .err c => finish st s!"err:rterm:{c}" false
+        | .err c => finish st (errText c) false
         | .more => finish st "more" true
         | .open_ =>
           block st task (.read op sid cyc (pos + r.pieces.length) (calls.map (· - r.pieces.length)) acc counts)
+  | .readFill op sid cyc idx room calls acc counts =>
+    match getPeer st sid with
+    | none => st
+    | some p =>
+      match p.rd with
+      | none => st
+      | some rd =>
+        let evs := evsOf st p
+        let avail := rd.buf.flatten.length + (bytesBefore evs).length
+        let (ps, fin, rd', evs', idx', room', calls') := fillLoop (avail + 2) cyc idx room calls rd evs []
+        let acc := acc ++ ps.flatten
+        let counts := counts ++ ps.map List.length
+        let st := updPeer st sid (fun p => { p with rd := some rd', evs := evs' })
+        let finish (st : St) (endM : String) (more : Bool) : St :=
+          let pay := (hdrPayload p).drop p.taken
+          let sdata := if more then pay.take acc.length else pay
+          let send := if more then "more" else endText p.ended
+          (updPeer st sid (fun p => { p with taken := p.taken + sdata.length })).log
+            s!"{task}.{op}=data:{toHex acc}:n={joinNat counts}:{endM}"
+            (if endM == "err:conn" then s!"{task}.{op}=data:*:n=*:err:conn"
+             else s!"{task}.{op}=data:{toHex sdata}:n=*:{send}")
+        match fin with
+        | .eof => finish st "end" false
+        | .err c => finish st (errText c) false
+        | .more => finish st "more" true
+        | .open_ => block st task (.readFill op sid cyc idx' room' calls' acc counts)
   | .readAll sid acc =>
     match getPeer st sid with
     | none => st
@@ -399,16 +458,18 @@ def runJob (st : St) (task : String) (job : Job) : St :=
       match p.rd with
       | none => st
       | some rd =>
-        let acc := acc ++ readAll rd.buf [bytesBefore p.evs]
-        let rest := fromEnd p.evs
+        let evs := evsOf st p
+        let acc := acc ++ readAll rd.buf [bytesBefore evs]
+        let rest := fromEnd evs
         let st := updPeer st sid (fun p => { p with rd := some { rd with buf := [] }, evs := rest })
         let finish (st : St) (endM : String) : St :=
           let pay := (hdrPayload p).drop p.taken
           (updPeer st sid (fun p => { p with taken := p.taken + pay.length })).log
-            s!"{task}.ra=data:{toHex acc}:{endM}" s!"{task}.ra=data:{toHex pay}:{endText p.ended}"
+            s!"{task}.ra=data:{toHex acc}:{endM}"
+            (if endM == "err:conn" then s!"{task}.ra=data:*:err:conn" else s!"{task}.ra=data:{toHex pay}:{endText p.ended}")
         match rest with
         | .fin :: _ => finish st "end"
-        | .reset c :: _ => finish st s!"err:rterm:{c}"
+        | .reset c :: _ => finish st (errText c)
         | _ => block st task (.readAll sid acc)
 
 def taskSid (task : String) : Option Nat :=
@@ -506,6 +567,12 @@ def exec (st : St) (task cmd : String) : St :=
       | "rt" =>
         let (cyc, calls) := parseSizes arg
         runJob st task (.read "rt" id cyc 0 calls [] [])
+      | "rff" =>
+        let (cyc, calls) := parseSizes arg
+        runJob st task (.readFill "rff" id cyc 0 0 calls [] [])
+      | "rtf" =>
+        let (cyc, calls) := parseSizes arg
+        runJob st task (.readFill "rtf" id cyc 0 0 calls [] [])
       | _ => st
 
 def isBlocked (st : St) (task : String) : Bool := st.blocked.any (·.1 == task)
